@@ -196,12 +196,13 @@ def rule_L2(ctx):
         ok = len(cs) == 1
         det = ""
         if ok:
+            from .util import call_parts
             ev = evaluator(ctx, mx, cs[0][1])
-            a = [ev.ev(x) for x in cs[0][0].args]
+            fname, a, kw = call_parts(ev.ev(cs[0][0]).key())
             szt = Term.atom("MdxHeaderConstruct.sizeof()")
             hdrt = Term.atom("MdxHeaderConstruct.parse_stream(parent_stream).eof")
-            ok = len(a) >= 3 and a[0] == Term.atom("parent_stream") and a[2] == szt and a[1] == hdrt - szt
-            det = "" if ok else f"StreamOffset({', '.join(x.key() for x in a)})"
+            ok = len(a) >= 3 and a[0] == "parent_stream" and a[2] == szt.key() and a[1] == (hdrt - szt).key()
+            det = "" if ok else f"StreamOffset({', '.join(a)})"
         ctx.ob("L2", mx, "MDX window: offset = sizeof(MdxHeaderConstruct), size = header.eof - offset", ok, det, inst="MdxStream")
 
 
